@@ -22,8 +22,16 @@ def run_all_one(tool, args, inputs, mode, env=None):
             p = core.run([tool] + args + ["--"] + list(items), timeout=30, env=env)
         return p.returncode, p.stdout
     rc, out = run(inputs)
-    singles = [run([x])[1] for x in inputs]
-    return out, singles
+    sr = [run([x]) for x in inputs]
+    return Out(out, rc), [Out(o, r) for r, o in sr]
+
+
+class Out(str):
+    """stdout of a run, carrying its exit status"""
+    def __new__(cls, text, rc=0):
+        o = str.__new__(cls, text)
+        o.rc = rc
+        return o
 
 
 def execution(label, inputs, out, singles):
@@ -37,11 +45,13 @@ def execution(label, inputs, out, singles):
         pos += len(s)
     if pos != len(out):
         outs.append(out[pos:])          # surplus output: makes the lengths differ -> rejected
-    ex = [{"e": "RunAll", "src": label, "inputs": inputs, "outs": outs}]
+    ex = [{"e": "RunAll", "src": label, "inputs": inputs, "outs": [str(o) for o in outs], "rc": getattr(out, "rc", 0)}]
     for i, s in enumerate(singles):
-        ex.append({"e": "RunOne", "src": label, "i": i + 1, "input": inputs[i], "out": s})
+        ex.append({"e": "RunOne", "src": label, "i": i + 1, "input": inputs[i], "out": str(s), "rc": getattr(s, "rc", 0)})
     if len(outs) != len(singles):
-        ex.append({"e": "RunOne", "src": label, "i": len(outs) + 1, "input": "(surplus output of the N-input run)", "out": ""})
+        ex.append({"e": "RunOne", "src": label, "i": len(outs) + 1, "input": "(surplus output of the N-input run)", "out": "", "rc": 0})
+    if hasattr(out, "rc"):
+        ex.append({"e": "Done", "src": label})
     return ex
 
 
